@@ -20,6 +20,18 @@ theorem merge_loop_keeps_values (ctx : Ctx) (st0 : Store) (combos : List (List A
   obtain ⟨_, b, c⟩ := mergeCombos_values_stable ctx st0 combos st0 set hc ⟨Nat.le_refl _, fun _ _ => rfl⟩ hs
   exact ⟨b, c⟩
 
+/-- `_merge_candidates` as a whole (all anchors): the allocation requests the per-group searches delivered are not
+modified - every object of the store it was called with is unchanged when it returns - and every request of the result
+refers to objects of the final store -/
+theorem merge_candidates_leaves_inputs_untouched (ctx : Ctx) (st0 : Store) (groups : List (Nat × List Areq))
+    (hc : ∀ an ls, listsFor groups an = some ls → ∀ combo ∈ prods ls, ComboOk ctx st0 combo) :
+    (∀ n, n < st0.length → getArr (mergeAnchors ctx groups st0 [] (anchorsOf groups)).1 n = getArr st0 n) ∧
+    (∀ e ∈ (mergeAnchors ctx groups st0 [] (anchorsOf groups)).2, ∀ i ∈ e.areq.arrs,
+      i < (mergeAnchors ctx groups st0 [] (anchorsOf groups)).1.length) := by
+  obtain ⟨_, b, _, d⟩ := mergeAnchors_values_stable ctx st0 groups hc (anchorsOf groups) st0 []
+    ⟨Nat.le_refl _, fun _ _ => rfl⟩ (fun e he => by cases he)
+  exact ⟨b, d⟩
+
 /-- the hypotheses are met by the store and the combinations of the witness of finding A when the class is listed -/
 example : ComboOk { policyNone := false, isolate := true, multiRcs := [0], numGranular := 1, sameSubtrees := [],
                     parents := [], limits := [] }
